@@ -9,11 +9,14 @@
 LargeInt in_a, in_b, in_c;
 double in_f;
 char in_s[4]; unsigned char in_slen;
+char in_t[4]; unsigned char in_tlen;
 static TempResult A[3], E;
-static char sbuf[8];
+static char sbuf[8], tbuf[8];
 
 static void arg_int(int k, LargeInt v) { as_tempres_ini(&A[k]); as_tempres_set_int(&A[k], v); }
 static void arg_str(int k) { as_tempres_ini(&A[k]); A[k].Typ = TempString; A[k].Contents.str.p_str = sbuf; A[k].Contents.str.len = in_slen; A[k].Contents.str.capacity = sizeof(sbuf); }
+
+static void arg_str2(int k) { as_tempres_ini(&A[k]); A[k].Typ = TempString; A[k].Contents.str.p_str = tbuf; A[k].Contents.str.len = in_tlen; A[k].Contents.str.capacity = sizeof(tbuf); }
 
 void harness(void)
 {
@@ -57,6 +60,50 @@ void harness(void)
     for (i = 0; i < 4; i++) if (i < n) CHECK(E.Contents.str.p_str[i] == in_s[st + i], "SUBSTR: extracted characters");
     if (in_b < 0) WITNESS("negative start");
   }
+#elif defined(F_STR2)
+  {
+    int j, want = -1;
+    LOADA(in_t, 4); LOAD(in_tlen);
+    ASSUME(in_tlen <= 4);
+    for (i = 0; i < 4; i++) tbuf[i] = in_t[i];
+    /* STRSTR(haystack, needle): first position at which needle occurs, -1 if it does not */
+    for (i = 4; i >= 0; i--) if (i + in_tlen <= in_slen) {
+      int eq = 1;
+      for (j = 0; j < 4; j++) if (j < in_tlen && in_s[i + j] != in_t[j]) eq = 0;
+      if (eq) want = i;
+    }
+    arg_str(0); arg_str2(1);
+    FuncSTRSTR(&E, A, 2);
+    CHECK(E.Typ == TempInt && E.Contents.Int == want, "STRSTR: first position of the substring, -1 if absent");
+    if (want > 0) WITNESS("found at a later position");
+    /* UPSTRING / LOWSTRING: same length, every ASCII letter folded, everything else (ASCII) unchanged */
+    as_tempres_ini(&E); arg_str(0);
+    FuncUPSTRING(&E, A, 1);
+    CHECK(E.Typ == TempString && E.Contents.str.len == in_slen, "UPSTRING keeps the length");
+    for (i = 0; i < 4; i++) if (i < in_slen && (unsigned char)in_s[i] < 128)
+      CHECK(E.Contents.str.p_str[i] == ((in_s[i] >= 'a' && in_s[i] <= 'z') ? in_s[i] - 32 : in_s[i]), "UPSTRING: a..z to A..Z, other ASCII unchanged");
+    for (i = 0; i < 4; i++) CHECK(sbuf[i] == in_s[i], "UPSTRING leaves its argument alone");
+    as_tempres_ini(&E); arg_str(0);
+    FuncLOWSTRING(&E, A, 1);
+    CHECK(E.Typ == TempString && E.Contents.str.len == in_slen, "LOWSTRING keeps the length");
+    for (i = 0; i < 4; i++) if (i < in_slen && (unsigned char)in_s[i] < 128)
+      CHECK(E.Contents.str.p_str[i] == ((in_s[i] >= 'A' && in_s[i] <= 'Z') ? in_s[i] + 32 : in_s[i]), "LOWSTRING: A..Z to a..z, other ASCII unchanged");
+    for (i = 0; i < 4; i++) CHECK(sbuf[i] == in_s[i], "LOWSTRING leaves its argument alone");
+    CHECK(diag_cnt == 0, "string functions raise nothing");
+  }
+#elif defined(F_INTMISC2)
+  arg_int(0, in_a);
+  as_tempres_set_none(&E);
+  FuncTOLOWER(&E, A, 1);
+  if (in_a < 0 || in_a > 255) { CHECK(diag_cnt == 1 && E.Typ == TempNone, "TOLOWER outside 0..255 is an error without value"); }
+  else CHECK(diag_cnt == 0 && E.Typ == TempInt && E.Contents.Int == ((in_a >= 'A' && in_a <= 'Z') ? in_a + 32 : ((in_a < 128) ? in_a : E.Contents.Int)), "TOLOWER (ASCII)");
+  diag_reset();
+  FuncEXPRTYPE(&E, A, 1); CHECK(E.Typ == TempInt && E.Contents.Int == 0, "EXPRTYPE(integer) = 0");
+  as_tempres_set_float(&A[0], in_f);
+  FuncEXPRTYPE(&E, A, 1); CHECK(E.Typ == TempInt && E.Contents.Int == 1, "EXPRTYPE(float) = 1");
+  arg_str(0);
+  FuncEXPRTYPE(&E, A, 1); CHECK(E.Typ == TempInt && E.Contents.Int == 2, "EXPRTYPE(string) = 2");
+  CHECK(diag_cnt == 0, "EXPRTYPE raises nothing");
 #elif defined(F_DOMAIN)
   {
     as_tempres_ini(&A[0]); as_tempres_set_float(&A[0], in_f);
